@@ -9,6 +9,7 @@ from dataclasses import dataclass, field, asdict
 from typing import Callable, Dict, List, Optional
 
 from .loader import Program, Func, AnalysisError
+from .algebra import NotClosedForm
 
 VERIF = os.path.dirname(os.path.dirname(os.path.abspath(__file__)))
 
@@ -141,7 +142,7 @@ def run_property(prop: str, module, prog: Program, tier: str) -> "Result":
             fn(ctx)
         except AnalysisError as e:
             ctx._add(VANISHED if "anchor-missing" in str(e) else UNDECIDED, None, None, str(e), str(e), rule_id)
-        except (AttributeError, IndexError, KeyError, TypeError, ValueError) as e:
+        except (AttributeError, IndexError, KeyError, TypeError, ValueError, NotClosedForm) as e:
             # a rule tripping over an unexpected shape is "cannot decide", never a verdict
             import traceback
             tb = traceback.extract_tb(e.__traceback__)[-1]
